@@ -19,7 +19,7 @@ func init() {
 }
 
 func c15(p *core.Prog, r *core.Report) {
-	r.Explain = "Decides bookkeeping that selection correctness rests on (not optimality): (R1) the membership map and the heap of a peer list change together: Add inserts the same peerScore into both and Remove deletes from both; (R2) heap back-pointers: every placement of an element into the heap's slice (Swap, Push) updates its index to that position, Pop invalidates it, and Fix/Remove are given the element's own index; (R3) selection restores the heap: every popped element that is rejected is collected and pushed back, the chosen one is pushed back with a fresh order stamp before it is returned, and the selection counter is bumped; (R4) score tiers by constant evaluation: unconnected peers score MaxUint64, connected peers without inbound connections are offset by MaxInt32 above those with inbound ones, and the no-peers error is returned only for an empty list. A peer is inserted only after a lookup miss made under the write lock; (R5) heap order is (score, order) ascending and score changes are stored before the heap is fixed and reach every list. The lower score tier is taken exactly when the inbound count is zero; (R6) tried peers and hosts are recorded and the retry closures pass the attempt's RequestState (shared with C17). The load used for scoring counts calls pending on inbound and outbound connections; the selection scan is bounded by the heap length. Every peer told about a closing connection is re-scored on every path."
+	r.Explain = "Decides bookkeeping that selection correctness rests on (not optimality): (R1) the membership map and the heap of a peer list change together: Add inserts the same peerScore into both and Remove deletes from both; (R2) heap back-pointers: every placement of an element into the heap's slice (Swap, Push) updates its index to that position, Pop invalidates it, and Fix/Remove are given the element's own index; (R3) selection restores the heap: every popped element that is rejected is collected and pushed back, the chosen one is pushed back with a fresh order stamp before it is returned, and the selection counter is bumped; (R4) score tiers by constant evaluation: unconnected peers score MaxUint64, connected peers without inbound connections are offset by MaxInt32 above those with inbound ones, and the no-peers error is returned only for an empty list. A peer is inserted only after a lookup miss made under the write lock; (R5) heap order is (score, order) ascending and score changes are stored before the heap is fixed and reach every list. The lower score tier is taken exactly when the inbound count is zero; (R6) tried peers and hosts are recorded and the retry closures pass the attempt's RequestState (shared with C17). The load used for scoring counts calls pending on inbound and outbound connections; the selection scan is bounded by the heap length. Every peer told about a closing connection is re-scored on every path. Every store into peerScore.score outside construction is followed on every path by heap.Fix."
 	r.NotDecided = "that the returned peer has the minimum score among eligible peers; eligibility under all histories; the 3n fairness bound (depends on the randomised order stamp) - these need a reference model of the heap, which is a different technique family."
 	r.Rule("C15-R1", "E6 sameOperand", 2, "map and heap change together")
 	r.Rule("C15-R2", "E6 provenance", 5, "heap index back-pointers maintained")
@@ -366,7 +366,7 @@ func usesInVarargs(sl ssa.Value, v ssa.Value) bool {
 }
 
 func c16(p *core.Prog, r *core.Report) {
-	r.Explain = "Decides bookkeeping structure: (R1) single writers: a peer's connection lists grow only in Peer.addConnection, after a test that the connection is active, and shrink only in removeConnection; the channel's connection table is written only by addConnection (active connection, channel not closing) and removeClosedConn (closed connection); (R2) status callbacks: a successful add is followed by onStatusChanged, a found removal by onClosedConnRemoved and then onStatusChanged; (R3) host:port mismatch symmetry: the condition under which Connect also adds the connection to the dialled peer and the condition under which the close-state callback also removes it from the dialled peer compare the same two operands; (R4) the root list drops a peer exactly when canRemove(), which counts inbound and outbound connections and sub-channel references. The sub-channel reference count changes exactly on the paths that list / unlist the peer. The root list creates a peer only after a lookup miss under its write lock. addConnectionToPeer always creates the peer if needed; listing under the dialled address does not depend on a peer already existing. (R5) the peer's connection lists and sub-channel reference count are accessed only under the peer's own lock (shared with C04-R1)."
+	r.Explain = "Decides bookkeeping structure: (R1) single writers: a peer's connection lists grow only in Peer.addConnection, after a test that the connection is active, and shrink only in removeConnection; the channel's connection table is written only by addConnection (active connection, channel not closing) and removeClosedConn (closed connection); (R2) status callbacks: a successful add is followed by onStatusChanged, a found removal by onClosedConnRemoved and then onStatusChanged; (R3) host:port mismatch symmetry: the condition under which Connect also adds the connection to the dialled peer and the condition under which the close-state callback also removes it from the dialled peer compare the same two operands; (R4) the root list drops a peer exactly when canRemove(), which counts inbound and outbound connections and sub-channel references. The sub-channel reference count changes exactly on the paths that list / unlist the peer. The root list creates a peer only after a lookup miss under its write lock. addConnectionToPeer always creates the peer if needed; listing under the dialled address does not depend on a peer already existing. (R5) the peer's connection lists and sub-channel reference count are accessed only under the peer's own lock (shared with C04-R1). Both the announced and the dialled peer are told about a close (shared with C11-R3)."
 	r.NotDecided = "equality of the lists with the set of live connections at quiescence under all schedules."
 	r.Rule("C16-R1", "E6 who-may-write", 6, "single writers of the connection lists and the connection table")
 	r.Rule("C16-R2", "E6 ordering", 3, "status callbacks fire for gains and losses")
